@@ -8,15 +8,17 @@ package bitmap
 // Since 0.1.9
 func Of(bitPositions []int32, opts ...int32) []uint64 {
 
-	n := int32(0)
+	// n is int64: with n or the last position within 63 of math.MaxInt32,
+	// "n + 63" and "last + 1" do not fit an int32.
+	n := int64(0)
 
 	// The first opts is specified number of result bits.
 	if len(opts) > 0 {
-		n = opts[0]
+		n = int64(opts[0])
 	}
 
 	if len(bitPositions) > 0 {
-		max := bitPositions[len(bitPositions)-1] + 1
+		max := int64(bitPositions[len(bitPositions)-1]) + 1
 		if n < max {
 			n = max
 		}
